@@ -46,19 +46,25 @@ package zipslicer
 //@   property C09
 //@   before call io.CopyN(_, src, n): assert @member_body_is_exactly_the_announced_size n == size && src == r
 //@
-//@ macro fileOK(f *File) bool = len(f.lfhName) <= 65535 && len(f.lfhExtra) <= 65535 && (len(f.ddb) == 0 || len(f.ddb) == 16 || len(f.ddb) == 24) && \
+//@ macro fileOK(f *File) bool = len(f.lfhName) <= 65535 && len(f.lfhExtra) <= 65535 && len(f.ddb) <= 24 && \
 //@        f.Offset <= 1152921504606846976 && f.CompressedSize <= 1152921504606846976
+//@
+//@ macro sizesCached(f *File) bool = f.lfh.Signature != 0 && ((f.lfh.Flags / 8) % 2 == 0 || len(f.ddb) != 0)
+//@ macro sizesKept(f *File) bool = sameslice(f.lfhName, old(f.lfhName)) && sameslice(f.lfhExtra, old(f.lfhExtra)) && sameslice(f.ddb, old(f.ddb)) && \
+//@        f.CRC32 == old(f.CRC32) && f.lfh.Signature == old(f.lfh.Signature) && f.lfh.Flags == old(f.lfh.Flags)
 //@
 //@ func (*File).readLocalHeader
 //@   property C17
 //@   requires fileOK(f)
 //@   ensures @lengths_fit_their_16_bit_fields fileOK(f)
+//@   ensures @cached_header_reused old(f.lfh.Signature) != 0 ==> ret0 == nil && sizesKept(f)
 //@   modifies f.lfh, f.lfhName, f.lfhExtra
 //@
 //@ func (*File).readDataDesc
 //@   property C17
 //@   requires fileOK(f)
 //@   ensures @file_invariant_kept fileOK(f)
+//@   ensures @cached_sizes_reused old(sizesCached(f)) ==> ret0 == nil && sizesKept(f)
 //@   ghost reads int = 0
 //@   before call invoke io.ReaderAt.ReadAt(_, b, off): assert @descriptor_follows_local_header_and_data \
 //@        reads == 0 ==> off == f.Offset + 30 + len(f.lfhName) + len(f.lfhExtra) + f.CompressedSize
@@ -66,7 +72,7 @@ package zipslicer
 //@   before call invoke io.ReaderAt.ReadAt(_, b, off): assert @long_descriptor_tail_follows reads == 1 ==> len(b) == 8 && off == f.Offset + 30 + len(f.lfhName) + len(f.lfhExtra) + f.CompressedSize + 16
 //@   before call invoke io.ReaderAt.ReadAt(_, b, off): assert @at_most_two_reads reads <= 1
 //@   on call invoke io.ReaderAt.ReadAt(_, _, _) ret (n, e): reads = reads + 1
-//@   ensures @descriptor_is_16_or_24_bytes ret0 == nil && len(f.ddb) != 0 ==> len(f.ddb) == 16 || len(f.ddb) == 24
+//@   ensures @descriptor_is_16_or_24_bytes ret0 == nil && old(len(f.ddb)) == 0 && len(f.ddb) != 0 ==> len(f.ddb) == 16 || len(f.ddb) == 24
 //@   modifies f.lfh, f.lfhName, f.lfhExtra, f.ddb, f.CRC32
 //@
 //@ func (*File).GetTotalSize
@@ -74,6 +80,7 @@ package zipslicer
 //@   requires fileOK(f)
 //@   ensures @file_invariant_kept fileOK(f) && (ret1 == nil ==> 30 <= ret0 && ret0 <= 1152921504606846976 + 131124)
 //@   ensures @total_is_header_name_extra_data_descriptor ret1 == nil ==> ret0 == 30 + len(f.lfhName) + len(f.lfhExtra) + len(f.ddb) + f.CompressedSize
+//@   ensures @cached_sizes_reused old(sizesCached(f)) ==> ret1 == nil && sizesKept(f)
 //@   modifies f.lfh, f.lfhName, f.lfhExtra, f.ddb, f.CRC32
 //@
 //@ func (*File).GetDirectoryHeader
@@ -94,18 +101,38 @@ package zipslicer
 //@   requires fileOK(f) && 0 <= d.DirLoc && d.DirLoc <= 2305843009213693952
 //@   ghost size int = 0
 //@   on call (*File).GetTotalSize(_) ret (n, e): size = n
-//@   ensures @member_placed_at_the_end_of_the_contents ret1 == nil ==> f.Offset == old(d.DirLoc)
-//@   ensures @contents_end_advances_by_the_member_size ret1 == nil ==> d.DirLoc == old(d.DirLoc) + size
+//@   ensures @member_placed_at_the_end_of_the_contents ret1 == nil ==> f.Offset == old(d.DirLoc) && ret0 == f
+//@   ensures @contents_end_advances_by_the_member_size ret1 == nil ==> d.DirLoc == old(d.DirLoc) + size && \
+//@        d.DirLoc == old(d.DirLoc) + 30 + len(f.lfhName) + len(f.lfhExtra) + len(f.ddb) + f.CompressedSize
+//@   ensures @cached_sizes_reused old(sizesCached(f)) ==> ret1 == nil && sizesKept(f)
 //@   ensures @member_appended_to_the_directory ret1 == nil ==> len(d.File) == old(len(d.File)) + 1 && d.File[len(d.File)-1] == f
 //@   ensures @directory_grows_in_place_or_into_new_memory (samearr(d.File, old(d.File)) && cap(d.File) == old(cap(d.File))) || allocated(d.File)
 //@   ensures @cached_header_dropped_when_the_member_moved ret1 == nil && old(f.Offset) != old(d.DirLoc) ==> len(f.raw) == 0
 //@   modifies f.lfh, f.lfhName, f.lfhExtra, f.ddb, f.CRC32, f.raw, f.Offset, d.DirLoc, d.File, mem(d.File)
 //@
+//@ func (*Directory).NewFile
+//@   property C03 C17
+//@   requires 0 <= d.DirLoc && d.DirLoc <= 2305843009213693952 && len(name) <= 65535 && len(extra) <= 65535 && w != nil
+//@   ghost wr int = 0
+//@   on call encoding/binary.Write(s, _, v) ret (e): wr = wr + ite(s == iface(buf), binsize(v), 0)
+//@   on call (*bufio.Writer).WriteString(_, t) ret (n, e): wr = wr + len(t)
+//@   on call (*bufio.Writer).Write(_, p) ret (n, e): wr = wr + len(p)
+//@   before call (*bufio.Writer).Write(b, _): assert @member_bytes_go_to_the_given_writer b == buf
+//@   before call (*bufio.Writer).WriteString(b, _): assert @member_bytes_go_to_the_given_writer b == buf
+//@   before call (*bufio.Writer).Flush(b): assert @member_bytes_go_to_the_given_writer b == buf
+//@   ensures @contents_end_advances_by_exactly_the_bytes_written ret1 == nil ==> d.DirLoc == old(d.DirLoc) + wr
+//@   ensures @a_member_stays_below_4_gib_plus_headers ret1 == nil ==> d.DirLoc <= old(d.DirLoc) + 4295098419
+//@   ensures @new_member_placed_at_the_end_of_the_contents ret1 == nil ==> ret0 != nil && ret0.Offset == old(d.DirLoc) && d.DirLoc >= old(d.DirLoc) + 30
+//@   ensures @member_appended_to_the_directory ret1 == nil ==> len(d.File) == old(len(d.File)) + 1 && d.File[len(d.File)-1] == ret0
+//@   ensures @directory_grows_in_place_or_into_new_memory (samearr(d.File, old(d.File)) && cap(d.File) == old(cap(d.File))) || allocated(d.File)
+//@   fresh ret0
+//@   modifies d.DirLoc, d.File, mem(d.File), sink w
+//@
 //@ func (*Directory).WriteDirectory
 //@   property C17
 //@   requires 0 <= d.DirLoc && d.DirLoc <= 2305843009213693952
 //@   before call (*bufio.Writer).Reset(_, w): assert @end_records_go_to_a_real_writer w != nil
-//@   modifies any File.Extra
+//@   modifies any File.Extra, any bytes.Buffer
 //@   before call encoding/binary.Write(_, _, v): assert @end_record_describes_the_directory istype(v, zipEndRecord) && !(minVersion == 45) ==> \
 //@        unbox(v, zipEndRecord).TotalCDCount == count && unbox(v, zipEndRecord).DiskCDCount == count && unbox(v, zipEndRecord).CDSize == size && \
 //@        unbox(v, zipEndRecord).CDOffset == cdoff && unbox(v, zipEndRecord).Signature == 101010256
